@@ -195,7 +195,61 @@ class C11(F.PropCheck):
             if any(kind == 'BUSY' for (_, kind, _) in tl): tags.append('lateness')
             cases.append(F.Case('%s%d' % (tier[0], i), self.to_events(cfg, tl, tend), tags))
         cases += self.relconn_cases(rng, max(20, n // 12))
+        cases += self.redeliver_cases(rng, max(24, n // 12))
+        cases += self.startup_cases(rng, max(24, n // 12))
         if tier != 'search': cases += self.sweep_cases(tier) + self.spike_cases(tier)
+        return cases
+
+    def redeliver_cases(self, rng, n):
+        """the server delivers the UNCHANGED action-trigger configuration (as after every reconnect) while a gesture is
+        pending: single click inside its multi-click window, long press before HOLD, double click between the clicks"""
+        k = K(); cases = []
+        for i in range(n):
+            typ = rng.choice([2, 2, 2, 4])
+            if typ == 2:
+                cap = k['CAP_HOLD'] + sum(k['CAP_PRESS_x%d' % j] for j in range(1, 6))
+                mask = rng.choice([k['CAP_PRESS_x2'] | k['CAP_HOLD'], k['CAP_PRESS_x2'], k['CAP_PRESS_x1'] | k['CAP_PRESS_x2'] | k['CAP_HOLD'], k['CAP_PRESS_x3'] | k['CAP_HOLD']])
+            else:
+                cap = 3 + sum(k['CAP_TOGGLE_x%d' % j] for j in range(1, 6))
+                mask = rng.choice([k['CAP_TOGGLE_x2'], k['CAP_TOGGLE_x1'] | k['CAP_TOGGLE_x2'], k['CAP_TOGGLE_x3'] | 3])
+            flags = rng.choice([0, 1]); lvl = 0
+            evs = [('CFG', [rng.choice([1, rng.getrandbits(32)]), typ, flags, rng.choice([1, 1, 0]), 1, cap, 0], b''),
+                   ('ADV', [250 * MS], b''), ('REG', [], b''), ('ADV', [400 * MS], b''), ('TRIG', [mask], b''),
+                   ('ADV', [rng.randrange(450 * MS, 600 * MS)], b'')]
+            kind = rng.choice(['click', 'hold', 'double'] if typ == 2 else ['click', 'double'])
+            w = rng.randrange(150 * MS, 240 * MS)
+            if kind == 'click':
+                d = rng.randrange(140 * MS, 380 * MS)       # after the release edge: recognised at +120 ms, window ends at +420..440 ms
+                evs += [('IN', [1], b''), ('ADV', [w], b''), ('IN', [0], b''), ('ADV', [d], b''), ('TRIG', [mask], b''), ('ADV', [900 * MS], b'')]
+                if typ == 4: evs = evs[:-5] + [('IN', [1], b''), ('ADV', [d], b''), ('TRIG', [mask], b''), ('ADV', [900 * MS], b'')]
+            elif kind == 'hold':
+                d = rng.randrange(140 * MS, 780 * MS)
+                evs += [('IN', [1], b''), ('ADV', [d], b''), ('TRIG', [mask], b''), ('ADV', [1500 * MS - d], b''), ('IN', [0], b''), ('ADV', [900 * MS], b'')]
+            else:
+                g1 = rng.randrange(130 * MS, 250 * MS); d = rng.randrange(10 * MS, g1)
+                if typ == 2:
+                    evs += [('IN', [1], b''), ('ADV', [w], b''), ('IN', [0], b''), ('ADV', [d], b''), ('TRIG', [mask], b''), ('ADV', [g1 - d], b''),
+                            ('IN', [1], b''), ('ADV', [w], b''), ('IN', [0], b''), ('ADV', [900 * MS], b'')]
+                else:
+                    evs += [('IN', [1], b''), ('ADV', [d + 125 * MS], b''), ('TRIG', [mask], b''), ('ADV', [g1], b''), ('IN', [0], b''), ('ADV', [900 * MS], b'')]
+            cases.append(F.Case('rd%d' % i, evs, ['config-redelivered', 'type%d' % typ, kind]))
+        return cases
+
+    def startup_cases(self, rng, n):
+        """motion sensor with a relay: a short excursion (spike / drop-out) around the start-up relay synchronisation
+        (silent period + 100 ms after gpio init)"""
+        k = K(); cases = []; T = k['MOTION_INIT_MS'] * MS
+        for i in range(n):
+            flags = rng.choice([0, 1]); level0 = rng.choice([0, 1])
+            width = rng.choice([3, 19, 40, 77, 95, rng.randrange(1, 99)]) * MS
+            if rng.random() < 0.75: start = rng.randrange(max(1, T - width + 1), T)        # covers the instant
+            else: start = rng.choice([rng.randrange(1, T - width), rng.randrange(T + MS, T + 300 * MS)])
+            evs = [('CFG', [rng.choice([1, rng.getrandbits(32)]), 8, flags, 1, 1, rng.choice([0, 0, 3]), level0], b'')]
+            t = 0
+            if rng.random() < 0.5 and start > 260 * MS: evs += [('ADV', [250 * MS], b''), ('REG', [], b'')]; t = 250 * MS
+            evs += [('ADV', [start - t], b''), ('IN', [level0 ^ 1], b''), ('ADV', [width], b''), ('IN', [level0], b''), ('ADV', [700 * MS], b'')]
+            if rng.random() < 0.5: evs += [('IN', [level0 ^ 1], b''), ('ADV', [300 * MS], b''), ('IN', [level0], b''), ('ADV', [400 * MS], b'')]
+            cases.append(F.Case('su%d' % i, evs, ['motion-startup', 'covers' if start < T < start + width else 'beside']))
         return cases
 
     def sweep_cases(self, tier):
@@ -371,6 +425,18 @@ class C11(F.PropCheck):
                     else: exp = [new] if rb != new else []
                     if g != exp:
                         v.append('P: plain mode, type %d, state %d recognised at %d us: relay edges %s, expected %s' % (typ, new, t, g, exp)); break
+        # ---- S  motion sensor start-up: the relay is synchronised with the RECOGNISED state (a level change shorter than
+        #         100 ms that happens to be in progress then must not reach the relay)
+        if cfg['typ'] == 8 and cfg['relay']:
+            rec = 0; lastloc = None
+            for (kind, ints, a) in seq:
+                if kind == 'NOTIFY': rec = ints[1]
+                elif kind in ('ACTIVE', 'INACTIVE'): lastloc = ints[0]
+                elif kind == 'VALUE' and ints[1] == 0:
+                    t = ints[0] - 10020
+                    if lastloc == t: lastloc = None; continue          # the action of a notify (logged by input.c)
+                    if t >= k['MOTION_INIT_MS'] * MS and ints[2] != rec:
+                        v.append('S: start-up synchronisation at %d us set the relay to %d while the recognised state is %d' % (t, ints[2], rec)); break
         # ---- T
         if not cfgbtn and cfg['typ'] in (2, 4):
             v += self.monitor_at(cfg, seq, busy, relsw, tend)
@@ -384,7 +450,10 @@ class C11(F.PropCheck):
         fam = [k['CAP_HOLD']] + [k['CAP_PRESS_x%d' % i] for i in range(1, 6)] + [k['CAP_TOGGLE_x%d' % i] for i in range(1, 6)]
         xbit = (lambda n: k['CAP_PRESS_x%d' % n]) if mono else (lambda n: k['CAP_TOGGLE_x%d' % n])
         ch = [(i[0], i[1], a) for (kd, i, a) in seq if kd == 'NOTIFY' and i[1] != i[2] and i[0] >= SIL]   # changing notifies
-        trigsets = [i[0] for (kd, i, a) in seq if kd == 'TRIGSET']
+        trigsets = []; pa = 0           # times of configurations that CHANGE the active mask (an unchanged one must not matter)
+        for (kd, i, a) in seq:
+            if kd == 'TRIGSET' and a != pa: trigsets.append(i[0])
+            pa = a
         trigs = [(i[0], i[2]) for (kd, i, a) in seq if kd == 'TRIG' and i[2] in fam]
         wats = [(i[0], i[2]) for (kd, i, a) in seq if kd == 'WAT' and i[2] in fam]
         actives = [i[0] for (kd, i, a) in seq if kd in ('ACTIVE', 'INACTIVE')]
